@@ -24,6 +24,7 @@ type World struct {
 	funcs  map[string]*ssa.Function // by short name
 	images map[string]*GlobalImage  // "pkg.name" -> runtime image
 	tier   string
+	property string
 	mu     sync.Mutex
 }
 
@@ -215,7 +216,7 @@ func (e *Engine) importGlobal(g *ssa.Global, addr *Term) {
 		// an error sentinel: (type word, data word) unique to this variable
 		n := uint64(len(e.globals))
 		typ := tb.ConstU(0x7d0000000000+n*64, 64)
-		data := tb.ConstU(0x7c0000000000+n*64, 64)
+		data := tb.ConstU(0x1c0000000000+n*64, 64) // below preLimit: sentinels pre-exist
 		var bs []*Term
 		for i := 0; i < 8; i++ {
 			bs = append(bs, tb.Extract(i*8+7, i*8, typ))
@@ -319,6 +320,14 @@ func (w *World) verifyFunc(name string, con *Contract) (jr *JobResult) {
 	for _, t := range inv {
 		e.assume(t)
 	}
+	// captured variables are cells that exist: their addresses are never nil
+	for i, p := range fn.FreeVars {
+		if s, ok := free[i].(Scalar); ok {
+			if _, isPtr := p.Type().Underlying().(*types.Pointer); isPtr {
+				e.assume(tb.Ne(s.T, tb.ConstU(0, 64)))
+			}
+		}
+	}
 	// parameter regions: fresh allocations are disjoint from them
 	for i, p := range fn.Params {
 		switch v := args[i].(type) {
@@ -341,6 +350,13 @@ func (w *World) verifyFunc(name string, con *Contract) (jr *JobResult) {
 		if s, ok := args[i].(Scalar); ok {
 			if pt, ok := p.Type().Underlying().(*types.Pointer); ok {
 				e.assumeWellTyped(mem0, s.T, pt.Elem(), 2, tb.Ne(s.T, tb.ConstU(0, 64)))
+			}
+		}
+	}
+	for i, p := range fn.FreeVars {
+		if s, ok := free[i].(Scalar); ok {
+			if pt, ok := p.Type().Underlying().(*types.Pointer); ok {
+				e.assumeWellTyped(mem0, s.T, pt.Elem(), 2, tb.True())
 			}
 		}
 	}
